@@ -493,6 +493,70 @@ def arg_role(txt):
     return None
 
 
+PRECALC_SIM = {}
+
+
+def precalc_outer(prog, m, fn):
+    """the no-call array the pre-computation returns for 1..3 populations (abstract execution): an outer product whose factors, read
+    left to right, are the one-population arrays of populations 0, 1, ... -- and the per-population lists it returns are in that order"""
+    from sa import miniexec as mx
+    from sa import alpha as _alpha
+    known_ = _alpha.load_table().get('__params__', {}).get(m.rel)
+    known_ = set(known_) if known_ is not None else None
+    bad, badsim = [], []
+    for D in (1, 2, 3):
+        it = mx.Interp(prog, m, known_functions=known_, symbolic_loops=True)
+        args = {'nsub': tuple(mx.Sym('nsub[%d]' % i) for i in range(D)), 'nseq': tuple(mx.Sym('nseq[%d]' % i) for i in range(D)),
+                'cov_dist': {'pop%d' % i: mx.Sym('cov_dist[%d]' % i) for i in range(D)}, 'sim_threshold': mx.Sym('sim_threshold'),
+                'Fx': [mx.Sym('Fx[%d]' % i) for i in range(D)], 'nsim': mx.Sym('nsim')}
+        try:
+            paths = [p_ for p_ in it.run(fn, args) if p_[0][0] == 'return']
+        except mx.Undecidable as e:
+            raise AnalysisError('low_cov_precalc is not recognised: %s' % e)
+        if not paths:
+            bad.append('%d populations: no returning path' % D)
+        for outcome, events, dec in paths:
+            r = outcome[1]
+            if not (isinstance(r, tuple) and len(r) == 5):
+                bad.append('%d populations: returns %s' % (D, mx.show(r)[:60]))
+                continue
+
+            def leaves(v):
+                c = mx.call_of(v, 'outer')
+                if c is not None and len(c[0]) == 2 and not c[1]:
+                    return leaves(c[0][0]) + leaves(c[0][1])
+                return [v]
+            lv = [x for x in leaves(r[0]) if x != 1]
+            got = []
+            for x in lv:
+                c = mx.call_of(x, 'probability_of_no_call_1D_GATK_multisample')
+                got.append([mx.show(a) for a in c[0]] if c is not None and not c[1] else [mx.show(x)[:40]])
+            want = [['cov_dist[%d]' % i, 'nseq[%d]' % i, 'Fx[%d]' % i] for i in range(D)]
+            if got != want:
+                bad.append('%d populations: factors of the no-call array %s' % (D, got))
+            # the mask is (no-call probability > threshold); the simulated set is argwhere(mask); one simulation per entry
+            mask = r[1]
+            okmask = isinstance(mask, mx.Sym) and mx.show(mask).strip('()') in ('%s > sim_threshold' % mx.show(r[0]), 'sim_threshold < %s' % mx.show(r[0]))
+            if not okmask:
+                badsim.append('%d populations: mask %s' % (D, mx.show(mask)[:80]))
+            so = r[4]
+            oks = isinstance(so, mx.Sym) and so.struct and so.struct[0] == 'dictcomp'
+            if oks:
+                k_, v_, itv, tgt = so.struct[1:5]
+                aw = mx.call_of(itv, 'argwhere')
+                sc_ = mx.call_of(v_, 'simulate_GATK_multisample_calling')
+                oks = aw is not None and len(aw[0]) == 1 and aw[0][0] is mask and mx.show(k_) == 'tuple(%s)' % tgt and sc_ is not None and not sc_[1] and len(sc_[0]) == 6 and \
+                    [mx.show(a) for a in sc_[0]] == [mx.show(args['cov_dist']), tgt, mx.show(args['nseq']), mx.show(args['nsub']), 'nsim', mx.show(args['Fx'])]
+            if not oks:
+                badsim.append('%d populations: simulated outputs %s' % (D, mx.show(so)[:100]))
+            for k_, nm_ in ((2, 'projection'), (3, 'heterozygote error')):
+                if not (isinstance(r[k_], list) and len(r[k_]) == D and all(('[%d]' % i) in mx.show(x) and not any(('[%d]' % j) in mx.show(x) for j in range(D) if j != i and k_ == 3) for i, x in enumerate(r[k_]))):
+                    bad.append('%d populations: %s matrices %s' % (D, nm_, mx.show(r[k_])[:80]))
+    PRECALC_SIM['ok'] = not badsim
+    PRECALC_SIM['detail'] = '; '.join(badsim[:2]) if badsim else 'simulated entries = argwhere(prob_nocall > threshold), returned with the mask they came from; one simulation per entry, keyed by the entry'
+    return not bad, '; '.join(bad[:2]) if bad else 'outer product of the one-population no-call arrays in population order (1-3 populations); matrix lists in population order'
+
+
 def check_precalc(rep, prog):
     m = prog.mod(LP)
     fn = prog.func(LP, 'low_cov_precalc_GATK_multisample_GATK_multisample')
@@ -520,13 +584,10 @@ def check_precalc(rep, prog):
                    what='coverage / sequenced size / subsample size / F reach the parameters of the same meaning, population by population')
     if n < 5:
         raise AnalysisError('low_cov_precalc: only %d of the 5 helper calls were found' % n)
-    t = ast.unparse(fn)
-    oko = has(t, 'prob_nocall_ND = 1 for apn_1D in prob_nocall_by_pop: prob_nocall_ND = numpy.multiply.outer(prob_nocall_ND, apn_1D)')
-    rep.ob('R-IDX', 'low_cov_precalc no-call outer product', oko, 'outer product over populations in population order', m.rel, fn.lineno, what='axis i of the no-call array belongs to population i')
-    okm = has(t, 'use_sim_mat = prob_nocall_ND > sim_threshold') and has(t, 'simulated_indices = numpy.argwhere(use_sim_mat)') and \
-        has(t, 'sim_outputs = {tuple(af): simulate_GATK_multisample_calling(cov_dist, af, nseq, nsub, nsim, Fx) for af in simulated_indices}') and \
-        flat(t).endswith(flat('return prob_nocall_ND, use_sim_mat, proj_mats, heterr_mats, sim_outputs'))
-    rep.ob('R-COMPL', 'low_cov_precalc simulated set', okm, 'simulated entries = argwhere(prob_nocall > threshold), returned with the mask they came from', m.rel, fn.lineno,
+    oko, deto = precalc_outer(prog, m, fn)
+    rep.ob('R-IDX', 'low_cov_precalc no-call outer product', oko, deto, m.rel, fn.lineno, what='axis i of the no-call array belongs to population i')
+    okm, detm = PRECALC_SIM['ok'], PRECALC_SIM['detail']
+    rep.ob('R-COMPL', 'low_cov_precalc simulated set', okm, detm, m.rel, fn.lineno,
            what='the simulated index set is exactly the support of use_sim_mat')
     sim = prog.func(LP, 'simulate_GATK_multisample_calling')
     r = returns(sim)
@@ -577,70 +638,140 @@ def check_lowpass_func(rep, prog):
     if len(inner) != 1:
         raise AnalysisError('lowpass_func not found')
     fn = inner[0]
-    loops = [n for n in fn.body if isinstance(n, ast.For) and 'proj_mats' in ast.unparse(n.iter)]
-    if len(loops) != 1:
-        raise AnalysisError('transformation loop not found')
-    lp = loops[0]
-    ops, dots = [], []
-    okshape = True
-    seq = []
-    for st in lp.body:
-        if not (isinstance(st, ast.Assign) and ast.unparse(st.targets[0]) == 'analytic' and isinstance(st.value, ast.Call)):
-            okshape = False
-            continue
-        c = st.value
-        f = dotted(c.func) or ''
-        if isinstance(c.func, ast.Attribute) and ast.unparse(c.func.value) == 'analytic' and c.func.attr in ('swapaxes',):
-            ops.append(('swapaxes', ast.unparse(c.args[0]), ast.unparse(c.args[1])))
-            seq.append('perm')
-        elif f in ('numpy.swapaxes', 'numpy.moveaxis', 'np.moveaxis', 'np.swapaxes') and ast.unparse(c.args[0]) == 'analytic':
-            ops.append((f.split('.')[-1], ast.unparse(c.args[1]), ast.unparse(c.args[2])))
-            seq.append('perm')
-        elif isinstance(c.func, ast.Attribute) and ast.unparse(c.func.value) == 'analytic' and c.func.attr == 'dot':
-            dots.append(ast.unparse(c.args[0]))
-            seq.append('dot')
-        else:
-            okshape = False
-    bad = []
-    try:
-        for D in (1, 2, 3):
-            for i in range(D):
-                # before the products, axis i must be last; after the loop body the order must be the identity
-                k = seq.index('dot') if 'dot' in seq else 0
-                npre = seq[:k].count('perm')
-                pre = apply_axis_ops(ops[:npre], D, i)
-                if pre[-1] != i:
-                    bad.append('D=%d pop %d: the products act on axis %d' % (D, i, pre[-1]))
-                fin = apply_axis_ops(ops, D, i)
-                if fin != list(range(D)):
-                    bad.append('D=%d pop %d: axes end in order %s' % (D, i, fin))
-    except AnalysisError as e:
-        bad.append(str(e))
-    rep.ob('R-RESTORE', 'lowpass_func axis order', okshape and not bad, '; '.join(bad[:3]) if bad else 'ops %s' % ops, m.rel, lp.lineno,
-           what='each iteration multiplies along the axis of its population and returns the array to the original axis order (1-3 populations)')
-    okd = dots == ['proj_mat', 'heterr_mat'] and flat(ast.unparse(lp.target)) == flat('pop_ii, proj_mat, heterr_mat') and ast.unparse(lp.iter) == 'enumerate(zip(proj_mats, heterr_mats))'
-    rep.ob('R-ORD', 'lowpass_func matrix order', okd, 'dot(%s)' % '), dot('.join(dots), m.rel, lp.lineno, what='projection to the subsample first, then heterozygote miscalling on the subsample')
+    # what the corrected model function returns for 1..3 populations: abstract execution of the closure (the cached pre-computation
+    # is a symbolic 5-tuple whose matrix lists have one entry per population)
+    from sa import miniexec as mx
+    from sa import alpha as _alpha
+    known_ = _alpha.load_table().get('__params__', {}).get(m.rel)
+    known_ = set(known_) if known_ is not None else None
+    bad = {'axis': [], 'order': [], 'split': [], 'model': [], 'key': [], 'meta': []}
     t = ast.unparse(fn)
-    okc = has(t, 'analytic = model * (1 - use_sim_mat)') and has(t, 'analytic *= 1 - prob_nocall_ND') and \
-        has(t, 'simulated = numpy.sum([model[af] * output for (af, output) in sim_outputs.items()], axis=0)') and has(t, 'output = analytic + simulated') and \
-        has(t, '(prob_nocall_ND, use_sim_mat, proj_mats, heterr_mats, sim_outputs) = precalc_cache[tuple(nsub)]')
+    for D in (1, 2, 3):
+        pre_tuple = (mx.Sym('prob_nocall_ND'), mx.Sym('use_sim_mat'), mx.Sym('proj_mats', length=D), mx.Sym('heterr_mats', length=D), mx.Sym('sim_outputs'))
+
+        def ih(base, key):
+            if isinstance(base, dict) and isinstance(key, mx.Sym) and key.text == 'tuple(nsub)':
+                return pre_tuple
+            return NotImplemented
+
+        def fh(nm, args, kwargs):
+            if nm == 'low_cov_precalc_GATK_multisample_GATK_multisample':
+                return pre_tuple
+            return NotImplemented
+        it = mx.Interp(prog, m, known_functions=known_, symbolic_loops=True, index_hook=ih, func_hook=fh)
+
+        def thunk(it=it):
+            w = it.call_function(outer, it.bind(outer, [mx.Sym('func', truth=True), mx.Sym('cov_dist'), mx.Sym('pop_ids'), mx.Sym('nseq'), mx.Sym('nsub')],
+                                                {'sim_threshold': mx.Sym('sim_threshold'), 'Fx': mx.Sym('Fx', truth=True), 'nsim': mx.Sym('nsim')}))
+            if not isinstance(w, mx.FuncRef):
+                raise mx.Undecidable('make_low_pass_func does not return a function')
+            return it.apply(w, [mx.Sym('params'), mx.Sym('ns'), mx.Sym('pts')], {'k': mx.Sym('k')})
+        try:
+            paths = [p_ for p_ in it.run_thunk(thunk, 'make_low_pass_func(...)(params, ns, pts, k=k)') if p_[0][0] == 'return']
+        except mx.Undecidable as e:
+            raise AnalysisError('lowpass_func is not recognised: %s' % e)
+        if not paths:
+            bad['split'].append('%d populations: no returning path' % D)
+        for outcome, events, dec in paths:
+            tagd = '%d populations' % D
+            fc = [e for e in events if e[0] == 'call' and e[1] == 'func']
+            if len(fc) != 1 or [mx.show(a) for a in fc[0][2]] != ['params', 'nseq', 'pts'] or {k_: mx.show(v_) for k_, v_ in fc[0][3].items()} != {'k': 'k'}:
+                bad['model'].append('%s: model called with (%s)' % (tagd, ', '.join(mx.show(a) for a in fc[0][2]) if fc else 'nothing'))
+            pc = [e for e in events if e[0] == 'call' and e[1] == 'low_cov_precalc_GATK_multisample_GATK_multisample']
+            for e in pc:
+                if [mx.show(a) for a in e[2]] != ['nsub', 'nseq', 'cov_dist', 'sim_threshold', 'Fx'] or {k_: mx.show(v_) for k_, v_ in e[3].items()} != {'nsim': 'nsim'}:
+                    bad['key'].append('%s: pre-computation called with %s' % (tagd, [mx.show(a) for a in e[2]]))
+            for e in [e for e in events if e[0] == 'setitem' and isinstance(e[4], dict)]:
+                if mx.show(e[2]) != 'tuple(nsub)':
+                    bad['key'].append('%s: cache key %s' % (tagd, mx.show(e[2])))
+            terms = mx.factors(outcome[1], '+')
+            sims = [x for x in terms if mx.call_of(x, 'sum') is not None]
+            ana = [x for x in terms if x not in sims]
+            if len(sims) != 1 or len(ana) != 1:
+                bad['split'].append('%s: result %s' % (tagd, mx.show(outcome[1])[:80]))
+                continue
+            sc = mx.call_of(sims[0], 'sum')
+            comp = sc[0][0] if sc[0] else None
+            okS = isinstance(comp, mx.Sym) and comp.struct and comp.struct[0] == 'comp' and mx.show(comp.struct[2]) == 'sim_outputs.items()' and mx.show(sc[1].get('axis')) == '0'
+            if okS:
+                tv = comp.struct[3].strip('()').split(', ')
+                okS = len(tv) == 2 and sorted(mx.show(f_) for f_ in mx.factors(comp.struct[1], '*')) == sorted(['func(params, nseq, pts, k=k)[%s]' % tv[0], tv[1]])
+            if not okS:
+                bad['split'].append('%s: simulated part %s' % (tagd, mx.show(sims[0])[:90]))
+            # unwrap the chain of axis swaps and matrix products of the analytic part
+            v = ana[0]
+            ops = []
+            while isinstance(v, mx.Sym) and v.struct and v.struct[0] == 'call':
+                rec = mx.method_call(v, 'swapaxes')
+                if rec is not None:
+                    ops.append(('swapaxes',) + tuple(v.struct[2]))
+                    v = rec
+                    continue
+                rec = mx.method_call(v, 'dot')
+                if rec is not None:
+                    ops.append(('dot', mx.show(v.struct[2][0])))
+                    v = rec
+                    continue
+                c_ = mx.call_of(v, 'swapaxes') or mx.call_of(v, 'dot')
+                if c_ is not None and v.struct[1].split('.')[0] in ('numpy', 'np'):
+                    nm_ = v.struct[1].split('.')[-1]
+                    ops.append((nm_,) + (tuple(c_[0][1:]) if nm_ == 'swapaxes' else (mx.show(c_[0][1]),)))
+                    v = c_[0][0]
+                    continue
+                break
+            ops.reverse()
+            base_f = sorted(mx.show(f_) for f_ in mx.factors(v, '*'))
+            if base_f != sorted(['func(params, nseq, pts, k=k)', '(1 - use_sim_mat)', '(1 - prob_nocall_ND)']):
+                bad['split'].append('%s: analytic part starts from %s' % (tagd, base_f))
+            want_dots = []
+            for i_ in range(D):
+                want_dots += ['proj_mats[%d]' % i_, 'heterr_mats[%d]' % i_]
+            if [o[1] for o in ops if o[0] == 'dot'] != want_dots:
+                bad['order'].append('%s: products %s' % (tagd, [o[1] for o in ops if o[0] == 'dot']))
+            # axis bookkeeping: every product acts on the last axis while it holds the axis of its population; identity order at the end
+            perm = list(range(D))
+            pop_of_dot = iter([i_ for i_ in range(D) for _ in range(2)])
+            okax = True
+            for o in ops:
+                if o[0] == 'swapaxes':
+                    a_, b_ = o[1], o[2]
+                    if not (isinstance(a_, int) and isinstance(b_, int)):
+                        okax = False
+                        break
+                    a_, b_ = a_ % D, b_ % D
+                    perm[a_], perm[b_] = perm[b_], perm[a_]
+                else:
+                    try:
+                        if perm[-1] != next(pop_of_dot):
+                            okax = False
+                    except StopIteration:
+                        okax = False
+            if not okax or perm != list(range(D)):
+                bad['axis'].append('%s: axis order after the loop %s (ops %s)' % (tagd, perm, [o[:1] + tuple(mx.show(x) for x in o[1:]) for o in ops][:6]))
+            sets = {e[2]: mx.show(e[3]) for e in events if e[0] == 'setattr' and e[1] == mx.show(outcome[1])}
+            if sets.get('folded') != 'func(params, nseq, pts, k=k).folded' or sets.get('extrap_x') != 'func(params, nseq, pts, k=k).extrap_x':
+                bad['meta'].append('%s: %s' % (tagd, sets))
+
+    def fmt(k, okmsg):
+        return '; '.join(sorted(set(bad[k]))[:2]) if bad[k] else okmsg
+    rep.ob('R-RESTORE', 'lowpass_func axis order', not bad['axis'], fmt('axis', 'each pair of products acts on the axis of its population (moved to the end and back); identity axis order at the end'), m.rel, fn.lineno,
+           what='each iteration multiplies along the axis of its population and returns the array to the original axis order (1-3 populations)')
+    rep.ob('R-ORD', 'lowpass_func matrix order', not bad['order'], fmt('order', 'dot(proj_mats[i]) then dot(heterr_mats[i]) for every population i in order'), m.rel, fn.lineno,
+           what='projection to the subsample first, then heterozygote miscalling on the subsample')
     pre_ret = ast.unparse(prog.func(LP, 'low_cov_precalc_GATK_multisample_GATK_multisample').body[-1])
-    okc = okc and flat(pre_ret) == flat('return prob_nocall_ND, use_sim_mat, proj_mats, heterr_mats, sim_outputs')
-    rep.ob('R-COMPL', 'lowpass_func analytic/simulated split', okc, 'analytic = model*(1-use_sim)*(1-p_nocall) transformed; simulated = sum over simulated entries of model[af]*outcome distribution', m.rel, fn.lineno,
+    okc = not bad['split'] and flat(pre_ret) == flat('return prob_nocall_ND, use_sim_mat, proj_mats, heterr_mats, sim_outputs')
+    rep.ob('R-COMPL', 'lowpass_func analytic/simulated split', okc, fmt('split', 'analytic = model*(1-use_sim)*(1-p_nocall) transformed; simulated = sum over simulated entries of model[af]*outcome distribution'), m.rel, fn.lineno,
            what='every model entry is used exactly once: analytically where use_sim_mat is 0, by simulation where it is 1; results unpacked in the order they are returned')
-    okm = has(t, 'new_args = [args[0]] + [nseq] + list(args[2:])') and has(t, 'model = func(*new_args, **kwargs)')
-    rep.ob('R-ARGS', 'lowpass_func model sample size', okm, 'the model is evaluated with ns = nseq', m.rel, fn.lineno, what='the uncorrected model has the sequenced sample sizes')
-    okk = has(t, "if tuple(nsub) not in precalc_cache:") and has(t, 'precalc_cache[tuple(nsub)] = low_cov_precalc_GATK_multisample_GATK_multisample(nsub, nseq, cov_dist, sim_threshold, Fx, nsim=nsim)')
-    # everything else the cached value depends on is fixed in the closure: not rebound inside lowpass_func
+    rep.ob('R-ARGS', 'lowpass_func model sample size', not bad['model'], fmt('model', 'the model is evaluated with ns = nseq'), m.rel, fn.lineno, what='the uncorrected model has the sequenced sample sizes')
     rebound = {n.id for n in own_nodes(fn) if isinstance(n, ast.Name) and isinstance(n.ctx, ast.Store)} & {'nsub', 'nseq', 'cov_dist', 'sim_threshold', 'Fx', 'nsim'}
     pp = func_params(prog.func(LP, 'low_cov_precalc_GATK_multisample_GATK_multisample'))
-    okk = okk and not rebound and pp[:5] == ['nsub', 'nseq', 'cov_dist', 'sim_threshold', 'Fx'] and 'precalc_cache = {}' in ast.unparse(outer)
-    rep.ob('R-KEY', 'lowpass_func precalc cache', okk, 'key tuple(nsub); nseq, cov_dist, sim_threshold, Fx, nsim are closure constants (rebound: %s)' % sorted(rebound), m.rel, fn.lineno,
+    okk = not bad['key'] and not rebound and pp[:5] == ['nsub', 'nseq', 'cov_dist', 'sim_threshold', 'Fx'] and 'precalc_cache = {}' in ast.unparse(outer)
+    rep.ob('R-KEY', 'lowpass_func precalc cache', okk, fmt('key', 'key tuple(nsub); nseq, cov_dist, sim_threshold, Fx, nsim are closure constants (rebound: %s)' % sorted(rebound)), m.rel, fn.lineno,
            what='the cache key determines the cached matrices')
     to = ast.unparse(outer)
     okf = has(to, 'elif numpy.any(numpy.asarray(Fx) == 1): raise ValueError') and has(to, 'if Fx is None:\n        Fx = [0] * len(nseq)')
     rep.ob('R-DOM', 'make_low_pass_func Fx', okf, 'Fx defaults to zeros per population; Fx == 1 is refused', m.rel, outer.lineno, what='the beta-binomial weights are never evaluated at F = 1')
-    okfo = has(t, "if model.folded:\n        raise ValueError") and has(t, 'output.folded = model.folded') and has(t, 'output.extrap_x = model.extrap_x')
+    okfo = has(t, "if model.folded:\n        raise ValueError") and not bad['meta']
     rep.ob('R-FLOW', 'lowpass_func metadata', okfo, 'folded models are refused; folding status and extrapolation abscissa are carried over', m.rel, fn.lineno, what='the corrected spectrum keeps the metadata of the model')
 
 
